@@ -71,6 +71,23 @@ def install_monitors():
                 REC["dumps"].append(dict(query=path_ctx.query, refined=path_ctx.is_refined, text=text, file=str(path_ctx.dump_file), cache=bool(path_ctx.args.cache_solver)))
         return r
 
+    orig_sll = solve_mod.solve_low_level
+
+    def solve_low_level(path_ctx):
+        # what the solver is actually run on: the text of the query file at the time of the call (not only what dump() wrote:
+        # the file may have been left there by something else)
+        r = orig_sll(path_ctx)
+        if REC["on"]:
+            try:
+                text = path_ctx.dump_file.read_text()
+            except OSError:
+                text = None
+            with REC["lock"]:
+                if not any(dd["file"] == str(path_ctx.dump_file) and dd["text"] == text for dd in REC["dumps"]):
+                    REC["dumps"].append(dict(query=path_ctx.query, refined=path_ctx.is_refined, text=text, file=str(path_ctx.dump_file), cache=bool(path_ctx.args.cache_solver), solved=True))
+                    REC["solved_files_not_dumped"] = REC.get("solved_files_not_dumped", 0) + 1
+        return r
+
     orig_extend = sevm_mod.Path.extend_path
 
     def extend_path(self, path):
@@ -90,6 +107,10 @@ def install_monitors():
     sevm_mod.Path.to_smt2 = to_smt2
     solve_mod.refine = refine
     solve_mod.dump = dump
+    solve_mod.solve_low_level = solve_low_level
+    import halmos.__main__ as main_mod
+
+    main_mod.solve_low_level = solve_low_level
 
 
 DECL_RE = re.compile(r"\(declare-fun (f_evm_[a-z]+_\d+) ")
